@@ -491,7 +491,13 @@ def run_one(pid, cfg, tier, replay=None):
         rc = 1
     elif bad_shards or infra or short or not subs:
         for k, code, text in bad_shards[:2]:
-            log("shard %d exited %s without a verdict; tail of its output:" % (k, code))
+            keep = os.path.join(ROOT, ".work", "last-bad-%s-%d.txt" % (pid, k))
+            try:
+                with open(keep, "w") as f:
+                    f.write(text)
+            except OSError:
+                keep = "(not saved)"
+            log("shard %d exited %s without a verdict; full output kept in %s; tail:" % (k, code, keep))
             log(text[-3000:])
         if short:
             log("inconclusive: sub-checks %s explored fewer cases than requested" % short)
